@@ -36,7 +36,7 @@ impl Check for C04 {
         proptest::strategy::Union::new(vec![parse_case_strategy(p, true, 8), parse_case_strategy(q, true, 8)]).boxed()
     }
     fn cases(&self, tier: Tier) -> u32 {
-        tier.pick(5000, 100000)
+        tier.pick(40000, 500000)
     }
     fn run(&self, case: &ParseCase, st: &mut Stats) -> Verdict {
         let gtext = case.grammar.print();
